@@ -1,6 +1,7 @@
 (* Properties/C17.v — thread-safe APIs and a shared Registry: no data race, compile once, no cross-runtime leak.
    The race-freedom theorems are decided on the access tables regenerated from the source on every run. *)
 From Coq Require Import String List Bool Arith.
+From GN Require Model.Require Proofs.RequireExtra.
 From GN Require Import Gen.LoopAccess Gen.RegistryAccess Model.LoopAccess Model.RegistryShare Proofs.RegistryShareProofs.
 From GN Require Import Gen.UtilFormat Model.ConsoleSrc.
 From GN Require Import Common.Base Model.Loop Proofs.LoopProps.
@@ -47,6 +48,16 @@ Theorem C17_order_irrelevant : forall ok ps qs p, ok p = true -> (In p ps <-> In
   count_occ Nat.eq_dec (loads (requests ok empty ps)) p = count_occ Nat.eq_dec (loads (requests ok empty qs)) p.
 Proof. exact order_irrelevant. Qed.
 Print Assumptions C17_order_irrelevant.
+
+(* package.json files (read by loadAsDirectory through Registry.getManifest): reading one that exists a second time - from another
+   runtime of the same Registry, from another requiring directory, or after it was compiled as a module - asks the SourceLoader
+   nothing; the first reading asks it once *)
+Theorem C17_manifest_fetched_once : forall fs st pk e, Model.Require.fs_get fs pk = Some e -> e <> Model.Require.FErr ->
+  let st1 := Model.Require.read_manifest fs st pk in
+  Model.Require.read_manifest fs st1 pk = st1 /\
+  (length (Model.Require.loader_log st1) <= S (length (Model.Require.loader_log st)))%nat.
+Proof. exact Proofs.RequireExtra.manifest_fetched_once. Qed.
+Print Assumptions C17_manifest_fetched_once.
 
 Example C17_nonvacuous :
   let ok := fun p => negb (Nat.eqb p 2%nat) in
